@@ -459,6 +459,10 @@ impl WorldB {
                         &format!("{}/{}", tname(ptype), if bogus { "bogus" } else if ptype == T_RESPONSE { "invalid-response" } else { "invalid-token" }),
                         format!("input {} bytes from {} got a {} byte reply", in_len, src, len),
                     );
+                    if bogus && matches!(self.ledger[ix].producer, Producer::Adversary) && self.ledger[ix].tid.is_some() {
+                        // C17: a modified copy of sealed material (token, datagram) was answered, i.e. taken for content
+                        obs.violate("C17", "tampered-datagram-accepted", &format!("answered/{}", tname(ptype)), format!("input {} bytes from {} got a {} byte reply", in_len, src, len));
+                    }
                 }
             }
         }
